@@ -423,8 +423,13 @@ func (r *Cache) delete(n *Node) bool {
 
 // GetStats returns cache statistics.
 func (r *Cache) GetStats() Stats {
+	var buckets int
+	// The map head is gone once the cache has been closed.
+	if head := (*mHead)(atomic.LoadPointer(&r.mHead)); head != nil {
+		buckets = len(head.buckets)
+	}
 	return Stats{
-		Buckets:     len((*mHead)(atomic.LoadPointer(&r.mHead)).buckets),
+		Buckets:     buckets,
 		Nodes:       atomic.LoadInt64(&r.statNodes),
 		Size:        atomic.LoadInt64(&r.statSize),
 		GrowCount:   atomic.LoadInt32(&r.statGrow),
